@@ -1,5 +1,6 @@
 pub mod c15;
 pub mod c16;
+pub mod ind;
 
 use serde_json::Value;
 use std::io::Write;
